@@ -50,22 +50,37 @@ macro_rules! for_property {
     };
 }
 
-thread_local! {
-    static FUZZ_ENTRY: std::cell::RefCell<Option<Box<dyn Fn(&[u8]) -> Option<String>>>> = const { std::cell::RefCell::new(None) };
+/// Object-safe face of `engine::FuzzCtx` for the generic coverage-guided target.
+pub trait FuzzFace {
+    fn one(&self, data: &[u8]) -> Option<String>;
+    fn mutate(&self, data: &[u8], seed: u32, max_size: usize) -> Vec<u8>;
+    fn crossover(&self, a: &[u8], b: &[u8], seed: u32, max_size: usize) -> Vec<u8>;
 }
 
-/// Entry of the generic coverage-guided target: the property is chosen by the environment
-/// variable VP_FUZZ_PROP; returns Some(message) on a violation.
-pub fn fuzz_case_entry(data: &[u8]) -> Option<String> {
-    FUZZ_ENTRY.with(|cell| {
+impl<P: crate::engine::Property> FuzzFace for crate::engine::FuzzCtx<P> {
+    fn one(&self, data: &[u8]) -> Option<String> {
+        crate::engine::FuzzCtx::one(self, data)
+    }
+    fn mutate(&self, data: &[u8], seed: u32, max_size: usize) -> Vec<u8> {
+        crate::engine::FuzzCtx::mutate(self, data, seed, max_size)
+    }
+    fn crossover(&self, a: &[u8], b: &[u8], seed: u32, max_size: usize) -> Vec<u8> {
+        crate::engine::FuzzCtx::crossover(self, a, b, seed, max_size)
+    }
+}
+
+thread_local! {
+    static FUZZ_FACE: std::cell::RefCell<Option<std::rc::Rc<dyn FuzzFace>>> = const { std::cell::RefCell::new(None) };
+}
+
+/// The generic coverage-guided target's view of the property named by VP_FUZZ_PROP.
+pub fn fuzz_face() -> std::rc::Rc<dyn FuzzFace> {
+    FUZZ_FACE.with(|cell| {
         if cell.borrow().is_none() {
             let id = std::env::var("VP_FUZZ_PROP").expect("VP_FUZZ_PROP must name the property");
-            let f: Box<dyn Fn(&[u8]) -> Option<String>> = for_property!(id.as_str(), p => {
-                let ctx = crate::engine::FuzzCtx::new(p);
-                Box::new(move |d: &[u8]| ctx.one(d))
-            }, panic!("unknown property {}", id));
+            let f: std::rc::Rc<dyn FuzzFace> = for_property!(id.as_str(), p => std::rc::Rc::new(crate::engine::FuzzCtx::new(p)), panic!("unknown property {}", id));
             *cell.borrow_mut() = Some(f);
         }
-        (cell.borrow().as_ref().unwrap())(data)
+        cell.borrow().as_ref().unwrap().clone()
     })
 }
